@@ -77,6 +77,7 @@ class Task:
         self.clock_expire = None   # offset hours (datetime mode)
         self.xtriggers = []
         self.family = None
+        self.completion = None     # user completion expression (text)
 
 
 class Program:
@@ -254,6 +255,8 @@ class Program:
             if t.submit_retries:
                 L.append('        submission retry delays = '
                          f'{t.submit_retries}*PT{t.retry_delay}S')
+            if t.completion:
+                L.append(f'        completion = {t.completion}')
             L.extend('        ' + x for x in self.extra_runtime.get(t.name, []))
             if t.customs:
                 L.append('        [[[outputs]]]')
